@@ -114,6 +114,27 @@ var specs = map[string]*propSpec{
 		guards: []guard{{"file.static.malformed", 30, "malformed files"}, {"file.static.served", 500, "served listed clients"}, {"file.static.unlisted_untouched", 200, "unlisted clients"},
 			{"file.refresh.good_rewrites", 30, "good rewrites"}, {"file.refresh.bad_rewrites_held", 10, "bad rewrites"}, {"file.dual.requests", 30, "dual-stack requests"}},
 	},
+	"C11": {
+		level: "exploration",
+		rule: "per case one of 7 plugin chains (empty, option plugins, range, file, a NAK-producing plugin, yiaddr-assigning + mtu/staticroute/autoconfigure, ipv6only+sleep+nbp) in a fresh server process inside the private network namespace (listener bound or unbound, both arrival links): (1) the full matrix of 256 opcodes x 23 message-type shapes (absent, 0..18, 255, two-byte, empty) with random relay/broadcast/ciaddr fields, option 61/82/116 presence; (2) 1500 (quick) / 6000 (thorough) generated datagrams (all header fields, hlen 0..16 and beyond, option table with wrong lengths and lying length bytes, pads) of which a third are mutated (bit/byte flips, truncation at structural boundaries, length +-1, duplication, splice, large trailers). Every UDP write (capture hook) and every sniffed link-level frame counts as a reply. Oracle: answered only if the codec accepts it, op=BOOTREQUEST and type DISCOVER/REQUEST; reply fields/echo/type per the statement, at most one reply. Distinct by (chain, opcode class, type bytes, answered?) plus every distinct answered datagram",
+		assumptions: assume("that a non-nil final response is actually sent is C13's statement", "hlen > 16 is clipped by the codec and only checked for no-crash"),
+		runs:        []runSpec{{engine: "match4", netns: true, parallel: 14, qBatches: 7, qCases: 1, tBatches: 42, tCases: 1, stall: 5 * time.Minute}},
+		guards:      []guard{{"match4.replies_to_type_1", 200, "replies to DISCOVER"}, {"match4.replies_to_type_3", 200, "replies to REQUEST"}, {"match4.dropped", 10000, "dropped datagrams"}, {"match4.replies_l2", 20, "link-level replies"}},
+	},
+	"C12": {
+		level: "exploration",
+		rule: "per case one of 5 chains (empty; server_id+dns+searchdomains; prefix+dns; file+nbp; sleep+synthetic) in a fresh server process inside the private network namespace, listener bound to ve0 or unbound: (1) matrix of message types 0..255 x client-id present/absent x rapid-commit present/absent, each sent plain and wrapped in 0-4 Relay-Forward layers with random link/peer addresses and Interface-ID/Remote-ID/client-link-layer options, from random global or link-local sources and ports, arriving on ve0 or vf0; (2) 1200 (quick) / 5000 (thorough) generated datagrams (every option kind incl. nested IA options, IAPrefix lengths 0 and > 128, relay depth to 32, Relay-Reply in the wrong place, relay without relay-message) of which a third are mutated. Oracle: answered only if the codec finds an inner message of a supported type; reply type table, xid, client-id, per-layer relay mirror, innermost message equal to the stateless chain's answer to the un-relayed message, destination = source, interface pin iff link-local. Distinct by (chain, type, relay depth, source class, answered?) plus every distinct answered datagram",
+		assumptions: assume("requests without a client identifier must not get one invented; relay chains containing Relay-Reply layers are no-crash only"),
+		runs:        []runSpec{{engine: "match6", netns: true, parallel: 10, qBatches: 10, qCases: 1, tBatches: 40, tCases: 1, stall: 5 * time.Minute}},
+		guards:      []guard{{"match6.replies", 2000, "replies"}, {"match6.replies_relayed", 500, "relayed replies"}, {"match6.replies_link_local", 500, "link-local replies"}, {"match6.dropped", 5000, "drops"}},
+	},
+	"C13": {
+		level: "exploration",
+		rule: "synthetic plugins registered with plugins.RegisterPlugin whose handlers behave as pass / modify / replace response / stop with response / stop with nil and log the identity and marker of the request/response objects they receive and return; every chain in behaviours^len for len 0..4 (781 chains; len <= 5 in the thorough tier) x both protocols, then random mixes of dual / v4-only / v6-only / failing-setup / nil-handler / unknown plugins; a quarter to a third of the configurations go through YAML and config.Load, the rest through a config value; each in a fresh server process through plugins.LoadPlugins and the real HandleMsg4/6. Oracle: handler list = listed plugins supporting the protocol, in order (or start-up error); invocation log = configured order cut after the first stop, once each, same request object, response = predecessor's return value; datagram sent = response returned last; nothing sent after nil. In every chain-child engine each loaded built-in handler is wrapped to assert 'nil response only with stop'. Distinct by (chain, protocol, config path)",
+		assumptions: assume("the enumeration is exhaustive over behaviours^len up to the stated length; longer chains and other behaviours are sampled"),
+		runs:        []runSpec{{engine: "order", qBatches: 16, qCases: 140, tBatches: 64, tCases: 160}},
+		guards:      []guard{{"order.chains_checked", 1500, "chains"}, {"order.must_fail", 50, "bad configurations"}, {"order.nil_final", 200, "nil final responses"}, {"order.sent_checked", 1500, "sent datagrams"}},
+	},
 	"C14": {
 		level: "exploration",
 		rule: "each case is one accepted server_id spelling (DHCPv6: LL/LLT in every keyword spelling x MAC of 6/8/20 bytes in colon/hyphen/dot form; DHCPv4: dotted and v4-mapped address) hosted in a fresh server process; DHCPv6: all 256 message types x {no, matching, other kind, same kind other MAC, longer, shorter, opaque, enterprise, LLT with other time} Server Identifier x relay depth 0-2 decided by the RFC 8415 section 16 table; DHCPv4: siaddr {absent, zero, own, other} x option 54 {absent, zero, own, other} x {DISCOVER, REQUEST} x with/without parameter list; every answered message must carry exactly this server's identifier (option 54 and siaddr for DHCPv4). Distinct by (configuration, matrix cell)",
